@@ -9,9 +9,13 @@ VERIF = os.path.dirname(os.path.dirname(os.path.abspath(__file__)))
 def main():
     props = [json.loads(l)['id'] for l in open(os.path.join(VERIF, 'properties.jsonl')) if l.strip()]
     checks = []
+    ready_path = os.path.join(VERIF, 'manifest.d', 'ready.txt')
+    ready = set(open(ready_path).read().split()) if os.path.exists(ready_path) else None
     for p in sorted(glob.glob(os.path.join(VERIF, 'manifest.d', 'C*.json'))):
         c = json.load(open(p))
         pid = c['property_id']
+        if ready is not None and pid not in ready:
+            continue   # fragment written by a builder, not yet accepted by the lead
         c.setdefault('quick_cmd', './check %s --tier quick' % pid)
         c.setdefault('thorough_cmd', './check %s --tier thorough' % pid)
         c.setdefault('evidence_file', 'evidence/%s.json' % pid)
